@@ -29,6 +29,9 @@ mechanism's disciplines without which that equality, record preservation, the tr
             waker); a Pending on any other path stalls the stream for some chunkings.
   ITEMS     LengthDelimitedStream::poll_next never returns an Err (or ends) while it holds records parsed in the same
             call: otherwise whether the records before a bad one are delivered depends on how the body was chunked.
+  PARSE-err a record that fails to deserialize is yielded as an Err item: RecordsStream::poll_next hands on whatever
+            read_from produced (Ok or Err) and never tests the inner Result to skip the Err case - its bytes are already
+            consumed, so skipping it silently loses a record.
   PROGRESS  the Batch reader asks for at least one record (count >= 1), otherwise a record straddling chunks is never
             assembled (chunking-dependent stall); Single/Batch/Length readers ask read_bytes for (a multiple of) the
             type's own Size.
@@ -68,6 +71,8 @@ def run(ctx):
     progress(ctx, facts)
     pending_edge(ctx, facts)
     items_flushed(ctx, facts)
+    deferred_error_first(ctx, facts)
+    parse_errors(ctx, facts)
     ctx.assume("bytes::Bytes::split_to(n) returns the first n bytes and keeps the rest; VecDeque push_back/pop_front are FIFO; Vec::with_capacity(n) reports capacity n for u8 (std's RawVec records the requested capacity)")
     ctx.assume("chunking-independence as an equality over all splittings is not decided; only the disciplines above")
 
@@ -810,3 +815,68 @@ def items_flushed(ctx, facts):
                f"after pushing a parsed record the same poll can return {kind} without delivering the records it holds: whether records that precede a bad or truncated one are delivered depends on how the bytes were chunked", site_of(b, bb, idx))
     if not any(bb in reach for bb, _, _, _ in other):
         ctx.ob("ITEMS", "held-records-always-delivered", True, "every return after a push delivers the items", site_of(b))
+
+
+def deferred_error_first(ctx, facts):
+    ctx.rule("ITEMS-order: in LengthDelimitedStream::poll_next a deferred parse error (pending_err) is taken and returned before anything is read from the buffer in that poll, and storing it is followed by a return without further reads")
+    b = facts.bodies.get(f"<{IN}LengthDelimitedStream<T, S> as futures_util::Stream>::poll_next")
+    if b is None:
+        ctx.missing("ITEMS-order", "LengthDelimitedStream::poll_next")
+        return
+    dom = b.dominators()
+    takes = [bb for bb, t in b.calls() if (F.callee(t)[0] or "").endswith("Option::<T>::take") and "pending_err" in str(flow.expr_of(b, t["args"][0], max_depth=12))]
+    stores = [bb for bb, idx, st in b.iter_assigns() if len(st["p"]) > 1 and any(isinstance(x, list) and x[0] == "f" and x[2:] == ["pending_err"] for x in st["p"]) and "'Some'" in str(flow.expr_of(b, st["r"]["o"], max_depth=8) if st["r"]["k"] == "use" else "")]
+    reads = [bb for bb, t in b.calls() if re.search(r"BufDeque::(read_bytes|read_infallible|try_read|read_multi)$", F.callee(t)[0] or "")]
+    if not stores and not takes:
+        ctx.ob("ITEMS-order", "no-deferred-error", True, "errors are not deferred in this version", site_of(b))
+        return
+    ctx.count(bodies=1)
+    ok1 = len(takes) >= 1 and all(any(flow.dominates(dom, tk, r) for tk in takes) for r in reads)
+    ctx.ob("ITEMS-order", "deferred-error-before-any-read", ok1, "a stored error is the first thing the next poll yields" if ok1 else "records can be read and yielded while a deferred parse error is still stored: the error is reported after later records, at a position that depends on how the body was chunked", site_of(b, takes[0]) if takes else site_of(b))
+    ok2 = True
+    for sb in stores:
+        reach = b.reachable(sb, avoid=frozenset(bb for bb in b.live_blocks() if b.term(bb)["k"] == "ret"))
+        if any(r in reach and r != sb for r in reads):
+            ok2 = False
+    ctx.ob("ITEMS-order", "store-then-return", ok2, "after storing the error the poll returns without reading on" if ok2 else "after a parse error was stored the same poll keeps reading records", site_of(b, stores[0]) if stores else site_of(b))
+
+
+def parse_errors(ctx, facts):
+    ctx.rule("PARSE-err: in RecordsStream::poll_next the Ready(Some(..)) payload is map_err(<the Some payload of Mode::read_from>) and no branch of the function tests the discriminant of that inner Result")
+    b = facts.bodies.get(f"<{IN}RecordsStream<T, S, M> as futures_util::Stream>::poll_next")
+    if b is None:
+        ctx.missing("PARSE-err", "RecordsStream::poll_next")
+        return
+    ctx.count(bodies=1)
+    rf = [(bb, t) for bb, t in b.calls() if (F.callee(t)[0] or "").endswith("input::Mode::read_from")]
+    if len(rf) != 1:
+        ctx.missing("PARSE-err", "single Mode::read_from call")
+        return
+    res = rf[0][1]["d"]
+    # switches on a discriminant of a place inside (res as Some).0
+    inner_tests = []
+    for bb in sorted(b.live_blocks()):
+        t = b.term(bb)
+        if t["k"] != "switch":
+            continue
+        l = F.op_local(t["o"])
+        for dbb, idx, st in b.iter_assigns():
+            if l is not None and st["p"] == [l] and st["r"]["k"] == "disc":
+                pl = st["r"]["p"]
+                if pl[0] == res[0] and len(pl) > 1:
+                    inner_tests.append(bb)
+                else:
+                    # a copy of the payload
+                    e = str(flow.expr_of(b, {"cp": pl}, max_depth=12))
+                    if "Mode::read_from" in e and "as:Some" in e:
+                        inner_tests.append(bb)
+    ok1 = not inner_tests
+    ctx.ob("PARSE-err", "RecordsStream:no-test-of-inner-result", ok1, "Ok and Err results of read_from take the same path" if ok1 else "RecordsStream::poll_next branches on whether the parsed record is Ok: a record that fails to deserialize (bytes already consumed) is skipped instead of being reported - the stream silently loses a record", site_of(b, inner_tests[0]) if inner_tests else site_of(b, rf[0][0]))
+    ok2 = False
+    for bb, idx, st in b.iter_assigns():
+        r = st["r"]
+        if r["k"] == "agg" and r.get("adt") == "std::option::Option" and r.get("vn") == "Some":
+            e = str(flow.expr_of(b, r["ops"][0], max_depth=20))
+            if "Mode::read_from" in e:
+                ok2 = "map_err" in e or e.count("(") < 12
+    ctx.ob("PARSE-err", "RecordsStream:yields-what-was-read", ok2, "Ready(Some(read.map_err(..)))" if ok2 else "the item yielded is not the (error-mapped) result of read_from", site_of(b, rf[0][0]))
